@@ -14,11 +14,12 @@ ENGINES = {
     # shadow crates: regenerated from /repo's sources on every run (bin/shadowgen.py)
     "shadow_crdt": {"cwd": "$CACHE/shadow/crdt", "pkg": [], "slots": 4, "prepare": "prepare_crdt"},
     "shadow_sync": {"cwd": "$CACHE/shadow/sync", "pkg": [], "slots": 2, "prepare": "prepare_sync"},
+    "shadow_canonical": {"cwd": "$CACHE/shadow/canonical", "pkg": [], "slots": 2, "prepare": "prepare_canonical"},
     "ext_c27": {"cwd": "$VERIF/harness/ext/c27", "pkg": [], "slots": 3, "copy_lock": True},
 }
-SETUP_ENGINES = ["node", "ext_c27", "shadow_crdt", "shadow_sync"]
+SETUP_ENGINES = ["node", "ext_c27", "shadow_crdt", "shadow_sync", "shadow_canonical"]
 # replay include files that exist in harness sources of an engine but belong to no registered harness (yet)
-EXTRA_REPLAY_FILES = {"shadow_sync": ["shadow_sync"], "shadow_crdt": ["shadow_crdt"], "ext_c27": ["ext_c27"], "node": ["wire_c13", "wire_c14", "service_c29", "limiter"]}
+EXTRA_REPLAY_FILES = {"shadow_canonical": ["shadow_canonical"], "shadow_sync": ["shadow_sync"], "shadow_crdt": ["shadow_crdt"], "ext_c27": ["ext_c27"], "node": ["wire_c13", "wire_c14", "service_c29", "limiter"]}
 
 Q = ["quick", "thorough"]
 T = ["thorough"]
@@ -252,4 +253,20 @@ PROPERTIES["C25"] = {
     "outside": ["the Fetcher (node/sync/fetch.rs: needs FetchResults / Address / VecDeque of candidates) - not encoded, so the fetcher half of the property is not claimed",
                 "more than 4 nodes / more than 3 results"],
     "assumptions": ["reference target: every preferred seed synced AND distinct synced nodes >= replication bound (upper bound of a range, else lower bound), replication factor clamped to the number of nodes to sync at construction"],
+}
+
+# ---------------------------------------------------------------------------------------------
+# C03
+
+_S03 = ["K-shadow (single file): git/canonical.rs copied verbatim into a shim crate; `use std::collections::BTreeMap` rewritten to `crate::vcoll` (4-slot maps over ids 0..3); two add-only #[cfg(kani)] lines give the harness a constructor for the private fields",
+        "Did / Oid = 1-byte ordered ids; raw::Repository = symbolic commit graph on 4 commits: merge_base returns a nondeterministically chosen best common ancestor (git's contract), NotFound when there is none; graph_ahead_behind from the ancestor sets"]
+_F03 = ["git::canonical::Canonical::{quorum,modify_vote}"]
+PROPERTIES["C03"] = {
+    "harnesses": [
+        H(f"c03_quorum_{n}_delegates", "shadow_canonical", "verif_kani", "shadow_canonical", tiers=Q, covers=2 if n > 2 else 2, functions=_F03, stubs=_S03,
+          bounds=f"any DAG on 4 commits (symbolic parent sets, merge and criss-cross shapes included), {n} delegates with symbolic tips (several on one commit allowed), threshold 1..={n}, any choice among several best common ancestors")
+        for n in (2, 3, 4)
+    ],
+    "outside": ["more than 4 commits / 4 delegates", "Canonical::reference / default_branch (read refs from storage) and Repository::set_head", "commit ids are topologically numbered (oid order vs ancestry order is not varied independently)"],
+    "assumptions": ["merge_base returns some best common ancestor or NotFound (git's contract)"],
 }
